@@ -32,11 +32,11 @@ var callWhitelist = map[string]bool{
 	"tryConnectToN4Peers": true, "Range": true, "handleNewPeers": true,
 	"startHeartBeatMonitor": true, "handleAssociationReleaseRequest": true,
 	"GetAllSessions": true, "hbCancel": true, "DeleteSession": true,
-	"Lock": true, "Unlock": true, "Add": true,
+	"Lock": true, "Unlock": true, "Add": true, "handlePFCPMsg": true,
 }
 
 var condWhitelist = map[string]bool{"hbCtxCancel": true, "pConnDone": true, "shutdown": true, "done": true,
-	"newPeersDone": true, "pConnsEnded": true}
+	"newPeersDone": true, "pConnsEnded": true, "released": true}
 
 type target struct{ key, file, recv, name string }
 
@@ -52,6 +52,7 @@ var targets = []target{
 	{"node_stop", "node.go", "PFCPNode", "Stop"},
 	{"node_done", "node.go", "PFCPNode", "Done"},
 	{"handle_msg", "messages.go", "PFCPConn", "HandlePFCPMsg"},
+	{"handle_msg_locked", "messages.go", "PFCPConn", "handlePFCPMsg"},
 	{"iface_stop", "pfcpiface.go", "PFCPIface", "Stop"},
 	{"remove_session", "sessions.go", "PFCPConn", "RemoveSession"},
 }
@@ -93,7 +94,7 @@ func callName(c *ast.CallExpr) (short, qual string) {
 		switch r := f.X.(type) {
 		case *ast.SelectorExpr:
 			if r.Sel.Name == "pConns" || r.Sel.Name == "shutdownOnce" || r.Sel.Name == "node" || r.Sel.Name == "store" ||
-				r.Sel.Name == "pConnsCreated" || r.Sel.Name == "hbMu" {
+				r.Sel.Name == "pConnsCreated" || r.Sel.Name == "hbMu" || r.Sel.Name == "handleMu" {
 				qual = r.Sel.Name + "." + short
 			}
 		}
@@ -115,7 +116,7 @@ func callAllowed(c *ast.CallExpr, short, qual string) bool {
 	case "Add":
 		return strings.HasPrefix(qual, "pConnsCreated.")
 	case "Lock", "Unlock":
-		return strings.HasPrefix(qual, "hbMu.")
+		return strings.HasPrefix(qual, "hbMu.") || strings.HasPrefix(qual, "handleMu.")
 	case "Stop", "Done":
 		return qual == "node."+short
 	case "Shutdown":
@@ -279,8 +280,10 @@ func (w *walker) stmt(s ast.Stmt) string {
 		}
 		return ""
 	case *ast.AssignStmt:
-		if len(x.Lhs) == 1 && len(x.Rhs) == 1 && exprName(x.Lhs[0]) == "newPeersDone" && x.Tok == token.ASSIGN {
-			return "set(newPeersDone," + exprName(x.Rhs[0]) + ")"
+		if len(x.Lhs) == 1 && len(x.Rhs) == 1 && x.Tok == token.ASSIGN {
+			if l := exprName(x.Lhs[0]); l == "newPeersDone" || l == "released" {
+				return "set(" + l + "," + exprName(x.Rhs[0]) + ")"
+			}
 		}
 		parts := []string{}
 		for i, r := range x.Rhs {
@@ -328,6 +331,9 @@ func (w *walker) stmt(s ast.Stmt) string {
 			return "defer(close:" + exprName(x.Call.Args[0]) + ")"
 		}
 		if callWhitelist[short] {
+			if _, qual := callName(x.Call); qual != short && callAllowed(x.Call, short, qual) {
+				return "defer(" + qual + ")"
+			}
 			return "defer(" + short + ")"
 		}
 		return ""
